@@ -62,6 +62,39 @@ ChainOK(cs) == /\ \A v, w \in cs.versions : (v.parent = w.parent \/ v.vid = w.vi
                         LET w == WalkFrom(cs.versions, b, Cardinality(cs.versions) + 1)
                         IN Len(w) = Cardinality(cs.versions) /\ w[Len(w)].vid = cs.latest)
 
+(***************************************************************************)
+(* C05: ONE request during which a storage step failed.                    *)
+(*  - the answer is an error, or - if the failure did not matter - the     *)
+(*    normal answer; a success is only ever sent when the change is        *)
+(*    committed (final = the state after the request);                     *)
+(*  - after an error the state is exactly as before the request, or        *)
+(*    exactly as after it (only the acknowledgement was lost), or - for    *)
+(*    the three-transaction HTTP AddVersion of an unknown client - the     *)
+(*    empty client record exists;                                          *)
+(*  - follow-up requests are then served normally (sequentially correct    *)
+(*    answers from that state, no error: the lock was released).           *)
+(***************************************************************************)
+RECURSIVE FollowOK(_, _, _, _)
+FollowOK(cfg, cs, follow, i) ==
+  IF i > Len(follow) THEN TRUE
+  ELSE LET f == follow[i]
+           o == UnitApply(cfg, cs, f.req, <<1, "m">>)
+       IN /\ f.resp.kind \notin {"error", "panic", "timeout", "none"}
+          /\ RespMatches(o.resp, f.resp)
+          /\ FollowOK(cfg, o.cs, follow, i + 1)
+
+C05_Round(cfg, seedcs, q, resp, final, follow) ==
+  LET o == UnitApply(cfg, seedcs, q, <<1, "m">>) IN
+  /\ resp.kind \notin {"panic", "timeout", "none"}
+  /\ resp.kind # "error" => (RespMatches(o.resp, resp) /\ final = o.cs)
+  /\ resp.kind = "error" =>
+        \/ final = seedcs
+        \/ final = o.cs
+        \* the acknowledgement was lost: the id the server chose is the new latest
+        \/ final = UnitApply(cfg, seedcs, [q EXCEPT !.vid = final.latest], <<1, "m">>).cs
+        \/ (q.op = "AddVersion" /\ q.lvl = "http" /\ final = [seedcs EXCEPT !.exists = TRUE])
+  /\ FollowOK(cfg, final, follow, 1)
+
 (* C03 for a fault-free round *)
 C03_Round(cfg, seedcs, reqs, resps, before, final) ==
   /\ \A r \in DOMAIN reqs : resps[r].kind \notin {"error", "panic", "timeout", "none"}   \* nobody is answered with a server error
